@@ -15,7 +15,7 @@ if [ -n "$demos" ] && [ -n "$pk" ]; then
   cp $demos $d/$pk/
   ( cd $d && timeout 600 go test -vet=off -count=1 ./$pk/ >/tmp/mc-nopatch.log 2>&1 ) && res="$res demo_without=PASS" || res="$res demo_without=FAIL"
 fi
-( cd $d && git apply $src/patch.diff ) || { echo "PATCH DOES NOT APPLY"; exit 2; }
+( cd $d && ( git apply $src/patch.diff 2>/dev/null || git apply --3way $src/patch.diff ) ) || { echo "PATCH DOES NOT APPLY"; exit 2; }
 if [ -n "$demos" ] && [ -n "$pk" ]; then
   ( cd $d && timeout 600 go test -vet=off -count=1 ./$pk/ >/tmp/mc-patch.log 2>&1 ) && res="$res demo_with=PASS" || res="$res demo_with=FAIL"
   for f in $demos; do rm -f $d/$pk/$(basename $f); done
